@@ -144,8 +144,25 @@ def build(reg):
     units.append(Unit(F, 'LocalBuilder._preparePackageStep', {'self': DYN, 'packageStep': DYN}, 'C05', requires=req, ghost_init=ghost_init, entry_hook=prep_entry,
         ensures=[('abort-invariant', post), ('digest-recorded-or-unchanged', lambda o, n, r: z3.Or(n.ghost.DSSET.z, n.ghost.DS0.z))],
         result=None, note='a directory handed to a different variant is emptied before it is recorded for it'))
+    # ---- _runShell: the only way a step script's outcome reaches the builder.  "A failed or killed step is never recorded as
+    # succeeded" starts here: the function returns normally ONLY if the invoker reported exit status 0 (a script killed by a signal
+    # comes back as a negative status), everything else leaves as BuildError.
+    def rs_init(eng, st):
+        st.ghost['RET'] = dyn.fresh('noret'); st.ghost['EXECUTED'] = mk_bool(False)
+    @reg.model('Dyn.executeStep')
+    def m_exec(eng, st, args, kw, node):
+        if getattr(reg.current_unit, 'qual', '') != 'LocalBuilder._runShell': return None
+        r = dyn.fresh('exitStatus'); st.ghost['RET'] = r; st.ghost['EXECUTED'] = mk_bool(True)
+        return [(st, r)]
+    ZERO = dyn.OF_INT(z3.IntVal(0))
+    rs = Unit(F, 'LocalBuilder._runShell', {'self': DYN, 'step': DYN, 'scriptName': DYN, 'logger': DYN, 'workspaceCreated': DYN, 'cleanWorkspace': DYN, 'mode': DYN}, 'C05',
+        ghost_init=rs_init, raises={'bob.errors.BuildError': True, 'OSError': True}, result=None, max_paths=2000,
+        ensures=[('returns-normally-only-after-the-script-ran-and-reported-exit-status-zero', lambda o, n, r: z3.And(n.ghost.EXECUTED.z, dyn.EQ(n.ghost.RET.z, ZERO)))],
+        note='every non-zero status (positive: exit code, negative: killed by a signal) becomes BuildError')
+    rs.tracked = {'executeStep'}
+    units.append(rs)
     units += [Watch(F, 'LocalBuilder._cookCheckoutStep', 'checkout step: attic/switch logic, audit regeneration'),
-              Watch(F, 'LocalBuilder._downloadPackage', 'download + verification'), Watch(F, 'LocalBuilder._runShell', 'spawns the step script'),
+              Watch(F, 'LocalBuilder._downloadPackage', 'download + verification'),
               Watch('pym/bob/invoker.py', 'Invoker.executeStep', 'cleans the workspace when the clean flag is set'),
               Watch('pym/bob/languages.py', 'StepSpec.fromStep', 'clean flag of package steps')]
     return units
